@@ -166,8 +166,10 @@ def check_roundtrip(chk, fails, dis, stats):
         if go["outcome"] != "ok":
             continue
         stored = go["accMeta"]["acc"]["k"]
-        script = "vars { %s $w = meta(@acc, \"k\") }\nset_tx_meta(\"k\", $w)\nset_account_meta(@acc, \"k\", $w)\n" % t
-        c2.append({"id": len(c2), "op": "exec", "script": script, "vars": {}, "balances": {}, "meta": {"acc": {"k": stored}},
+        # the metadata of @world and of segmented accounts is metadata like any other
+        acc = ["acc", "world", "users:001", "acc"][i % 4]
+        script = "vars { %s $w = meta(@%s, \"k\") }\nset_tx_meta(\"k\", $w)\nset_account_meta(@%s, \"k\", $w)\n" % (t, acc, acc)
+        c2.append({"id": len(c2), "op": "exec", "script": script, "vars": {}, "balances": {}, "meta": {acc: {"k": stored}}, "_acc": acc,
                    "store": "exact", "failAt": -1})
         idx.append(i)
     g2 = runner.run_go(c2)
@@ -209,6 +211,9 @@ def check_roundtrip(chk, fails, dis, stats):
                 c["meta"]["acc"]["k"], items[i][0], go.get("errKind"), go.get("errPayload"))]))
         elif go["txMeta"]["k"] != first["txMeta"]["k"]:
             fails.append((dict(c, _first=c1[i]), go, m, ["read back %s, written %s" % (go["txMeta"]["k"], first["txMeta"]["k"])]))
+        elif (go.get("accMeta") or {}).get(c["_acc"], {}).get("k") != c["meta"][c["_acc"]]["k"]:
+            fails.append((dict(c, _first=c1[i]), go, m, ["value written back to the metadata of @%s: %r, read %r" % (
+                c["_acc"], (go.get("accMeta") or {}).get(c["_acc"], {}).get("k"), c["meta"][c["_acc"]]["k"])]))
         else:
             stats["distinct_nontrivial"] += 1
 
